@@ -249,7 +249,11 @@ def canonical_dump(path, per_lexicon=True):
     try:
         raw = {}
         cols = {}
+        found_fk = {}
         for t in TABLES:
+            # foreign keys as the database itself declares them (a column added by a later schema, e.g. an
+            # owner column, is resolved to its natural key as well), completed by the table below
+            found_fk[t] = {r[3]: r[2] for r in conn.execute(f'PRAGMA foreign_key_list({t})')}
             c = [r[1] for r in conn.execute(f'PRAGMA table_info({t})')]
             cols[t] = c
             sel = ', '.join(c) if 'rowid' in c else 'rowid, ' + ', '.join(c)
@@ -258,7 +262,8 @@ def canonical_dump(path, per_lexicon=True):
                 cols[t] = ['rowid'] + c
     finally:
         conn.close()
-    lexspec = {r[0]: f'{r[1]}:{r[6]}' for r in raw['lexicons']}
+    li, lv = cols['lexicons'].index('id'), cols['lexicons'].index('version')
+    lexspec = {r[0]: f'{r[li]}:{r[lv]}' for r in raw['lexicons']}
     nat = {'lexicons': lexspec}
     nat['ilis'] = {r[0]: r[1] for r in raw['ilis']}
     nat['relation_types'] = {r[0]: r[1] for r in raw['relation_types']}
@@ -275,7 +280,8 @@ def canonical_dump(path, per_lexicon=True):
                                    for r in raw['syntactic_behaviours']}
     out = {}
     for t in TABLES:
-        fk = _FK.get(t, {})
+        fk = {c: tb for c, tb in found_fk.get(t, {}).items() if tb in nat}
+        fk.update(_FK.get(t, {}))
         rows = []
         for r in raw[t]:
             d = []
